@@ -480,6 +480,7 @@ var c06ExtremeTexts = []string{
 	"$99999999999999999999", "$2147483648", "$4294967296::1", "{$99999999999:1}", "1d99999999999", "1d-99999999999", "1d2147483647", "1d-2147483648", "1d2147483648",
 	"1e99999999", "1e-99999999", "-0e99999999999999999999", "0d99999999999999999999999", "1.0d999999999999999999",
 	"9999-12-31T23:59:59.999999999999999999999999999999+23:59", "0001-01-01T00:00:00.0000000000000000000000-23:59", "2000-01-01T00:00:00.99999999999999999999999999Z",
+	"[1,2,3,4,5,6,7,8]", "(a b c d e)", "[[1,2,3],[4,5,6]]", "{arr:[1,2,3,4],blob:[1,2,3,4,5,6]}", "[\"a\",\"b\",\"c\"]",
 	"$ion_symbol_table::{imports:[{name:\"t\",version:1,max_id:9223372036854775807}]} $10", "$ion_symbol_table::{imports:[{name:\"t\",version:2147483648,max_id:2147483648}]} $100",
 	"$ion_symbol_table::{imports:[{name:\"t\",version:1,max_id:99999999}],symbols:[\"a\"]} $100000008 $5",
 	"$ion_symbol_table::{imports:$ion_symbol_table,symbols:[\"a\"]} $10 $ion_symbol_table::{imports:$ion_symbol_table,symbols:[\"b\"]} $11 $12",
@@ -573,7 +574,7 @@ func genC06(t *rapid.T) C06Case {
 		n := gen.Range(t, 1, 60)
 		c.Arg = rapid.SliceOfN(rapid.Byte(), n, n).Draw(t, "prog")
 	case 3, 4:
-		c.Arg = []byte{byte(gen.Intn(t, 32))}
+		c.Arg = []byte{byte(gen.Intn(t, 35))}
 	}
 	return c
 }
@@ -657,7 +658,7 @@ func TestC06(t *testing.T) {
 					continue
 				}
 				for k := 0; k < 6; k++ {
-					for _, tg := range []byte{17, 8, 1, 22} {
+					for _, tg := range []byte{17, 8, 1, 22, 11, 13, 32, 33, 34} {
 						c := C06Case{Kind: k, Input: []byte(s), Src: "extreme-fields.text"}
 						if k == 1 {
 							c.Arg = []byte{0, 21, 5, 0, 21, 0, 7, 0, 21}
